@@ -107,5 +107,6 @@ def main(tier, replay=None):
         "contradiction, margins 1 .. 2^-10, contradictory cycles, infeasible systems with no more rows than variables -- truth from a "
         "box-free Farkas certificate or a feasible point checked by TLC; consistency of membership with refinement on recorded values",
         owner=lambda ev: PROP, replay=replay,
+        extra=lambda rep, rd: __import__("lpalgo").conformance(rep, rd, PROP, {"is_empty", "refines"}, 160 if tier == "quick" else 3200, seed()),
         nontrivial=lambda ev, kind, detail: kind == "ok",
     )
